@@ -13,8 +13,8 @@ Proof.
   unfold digit in Hd. specialize (IH (a * 10 + d)). unfold be_val in IH. lia.
 Qed.
 
-Lemma read_digits_be ds : Forall digit ds -> forall rest a, 0 <= a -> be_val ds a <= MAXFIX -> nodigit_head rest ->
-  read_digits (map (fun d => 48 + d) ds ++ rest) a false = (be_val ds a, false, rest).
+Lemma read_digits_be lim ds : Forall digit ds -> forall rest a, 0 <= a -> be_val ds a <= lim -> nodigit_head rest ->
+  read_digits lim (map (fun d => 48 + d) ds ++ rest) a false = (be_val ds a, false, rest).
 Proof.
   induction 1 as [|d ds Hd Hds IH]; intros rest a Ha Hmax Hrest.
   - cbn [map app be_val fold_left]. destruct rest as [|c r]; [reflexivity|].
@@ -24,7 +24,7 @@ Proof.
     replace (48 + d - 48) with d by lia.
     cbn [be_val fold_left] in Hmax |- *.
     pose proof (be_val_mono ds Hds (a * 10 + d)) as Hm. unfold be_val in Hm, Hmax.
-    assert (a >? (MAXFIX - d) / 10 = false) as -> by (unfold MAXFIX in *; lia).
+    assert (a >? (lim - d) / 10 = false) as -> by lia.
     apply IH; [lia | exact Hmax | exact Hrest].
 Qed.
 
@@ -48,14 +48,14 @@ Qed.
 Lemma be_val_rev l : be_val (rev l) 0 = le_val10 l.
 Proof. unfold be_val, le_val10. rewrite <- (rev_involutive l) at 2. rewrite fold_left_rev_right. reflexivity. Qed.
 
-Lemma MAXFIX_lt : MAXFIX < 10 ^ Z.of_nat 20.
+Lemma MAXFIX_lt : MAXFIX + 1 < 10 ^ Z.of_nat 20.
 Proof. reflexivity. Qed.
 
-(** the digits the writer prints for 0 <= n <= MAXFIX are read back as n, never tripping the exactness guard *)
-Lemma read_digits_dec_pos n rest : 0 <= n <= MAXFIX -> nodigit_head rest ->
-  read_digits (dec_pos n ++ rest) 0 false = (n, false, rest).
+(** the digits the writer prints for 0 <= n <= lim (MAXFIX, or MAXFIX + 1 after a minus sign) are read back as n, never tripping the exactness guard *)
+Lemma read_digits_dec_pos lim n rest : 0 <= n <= lim -> lim <= MAXFIX + 1 -> nodigit_head rest ->
+  read_digits lim (dec_pos n ++ rest) 0 false = (n, false, rest).
 Proof.
-  intros Hn Hrest. unfold dec_pos.
+  intros Hn Hlim Hrest. unfold dec_pos.
   destruct (le_digits_spec 20 n) as (A & B & C); [pose proof MAXFIX_lt; lia | lia |].
   rewrite read_digits_be.
   - rewrite be_val_rev, B. reflexivity.
@@ -65,7 +65,7 @@ Proof.
   - exact Hrest.
 Qed.
 
-Lemma dec_pos_head n : 0 <= n <= MAXFIX -> exists d t, dec_pos n = (48 + d) :: t /\ digit d.
+Lemma dec_pos_head n : 0 <= n <= MAXFIX + 1 -> exists d t, dec_pos n = (48 + d) :: t /\ digit d.
 Proof.
   intros Hn. unfold dec_pos.
   destruct (le_digits_spec 20 n) as (A & B & C); [pose proof MAXFIX_lt; lia | lia |].
